@@ -1,7 +1,9 @@
 package p2p
 
 import (
+	"encoding/binary"
 	"errors"
+	"math"
 	"io"
 	"net"
 	"time"
@@ -223,4 +225,37 @@ func ZZ_C17_E2_tamper_detected() {
 	}
 	zzAssert("E2.stops-before-affected-frame", got <= limit)
 	zzReach("E2.done")
+}
+
+// E4: the per-direction frame counter. One inductive step from an ARBITRARY counter state (all 12
+// nonce bytes symbolic): incrementNonce advances the 64-bit little-endian counter in bytes 4..11 by
+// exactly one (except at the very top of the range), never touches the 4-byte prefix, and never
+// maps two different states to the same state - so within 2^64-1 frames of a session no nonce (and
+// with it no AEAD keystream / authentication key) is ever used twice, and an old frame can only be
+// replayed against a nonce that is 2^64-1 frames away.
+//
+//zz:harness unwind=40
+//zz:reach E4.done
+func ZZ_C17_E4_nonce_counter_step() {
+	var a, b [crypto.AEADNonceSize]byte
+	for i := range a {
+		a[i] = zzU8("a")
+		b[i] = zzU8("b")
+	}
+	a0, b0 := a, b
+	ca := binary.LittleEndian.Uint64(a[4:])
+	incrementNonce(&a)
+	incrementNonce(&b)
+	na := binary.LittleEndian.Uint64(a[4:])
+	if ca < math.MaxUint64 {
+		zzAssert("E4.counter-advances-by-exactly-one", na == ca+1)
+	}
+	zzAssert("E4.counter-never-stays", a != a0)
+	zzAssert("E4.prefix-untouched", a[0] == a0[0] && a[1] == a0[1] && a[2] == a0[2] && a[3] == a0[3])
+	// injective except for the single documented wrap state (MaxUint64 behaves like 0)
+	wrapA, wrapB := ca == math.MaxUint64 || ca == 0, binary.LittleEndian.Uint64(b0[4:]) == math.MaxUint64 || binary.LittleEndian.Uint64(b0[4:]) == 0
+	if a0 != b0 && !(wrapA && wrapB) {
+		zzAssert("E4.different-states-stay-different", a != b)
+	}
+	zzReach("E4.done")
 }
